@@ -161,9 +161,41 @@ class Rewriter(ast.NodeTransformer):
     visit_AsyncFunctionDef = visit_FunctionDef
 
 
+class CovInserter(ast.NodeTransformer):
+    """Development aid (SYMX_COV=dir): records which statements of the
+    instrumented modules the harnesses execute (tools_cov.py reports the
+    rest).  Not used by the registered checks."""
+
+    def __init__(self, filename):
+        self.filename = filename
+
+    def _wrap(self, stmts):
+        out = []
+        for st in stmts:
+            st = self.visit(st)
+            probe = ast.Expr(value=ast.Call(
+                func=_rt('cov'),
+                args=[ast.Constant(value=self.filename),
+                      ast.Constant(value=st.lineno)], keywords=[]))
+            out.append(ast.copy_location(probe, st))
+            out.append(st)
+        return out
+
+    def generic_visit(self, node):
+        for field in ('body', 'orelse', 'finalbody'):
+            v = getattr(node, field, None)
+            if isinstance(v, list) and v and isinstance(v[0], ast.stmt):
+                setattr(node, field, self._wrap(v))
+        for h in getattr(node, 'handlers', []) or []:
+            h.body = self._wrap(h.body)
+        return node
+
+
 def instrument_source(src, filename):
     tree = ast.parse(src, filename)
     tree = Rewriter().visit(tree)
+    if os.environ.get('SYMX_COV') and '/pico8/' in filename:
+        tree = CovInserter(filename).visit(tree)
     ast.fix_missing_locations(tree)
     return compile(tree, filename, 'exec', dont_inherit=True)
 
